@@ -234,6 +234,12 @@ package main
 // atlas.go
 // ---------------------------------------------------------------------------------------------
 
+//@ func refuseForeignRedirect
+//@   props C16 C20
+//@   safety C07
+//@   requires A-HTTP-the-redirect-policy-is-called-with-requests-that-have-a-URL: req != nil && req.URL != nil && (len(via) == 0 || (via[0] != nil && field(via[0], "http.Request", "URL") != nil))
+//@   ensures a-redirect-is-followed-only-on-the-same-endpoint {C16,C20}: implies(result == nil && len(via) > 0, req.URL.Host == field(field(via[0], "http.Request", "URL"), "url.URL", "Host") && req.URL.Scheme == field(field(via[0], "http.Request", "URL"), "url.URL", "Scheme"))
+
 //@ func NewAtlasClient
 //@   props C16
 //@   ensures endpoint {C16}: result != nil && result.BaseURL == "https://cloud.mongodb.com" && result.HTTPClient != nil
